@@ -259,7 +259,8 @@ impl<'a> G<'a> {
             }
             10 => {
                 w.push(" ");
-                w.lexeme("block_comment", "/* block */");
+                let t = self.r.pick_str(&["/* block */", "/* block */", "/*/ slash first */", "/**/", "/***/", "/* a * / b */"]);
+                w.lexeme("block_comment", t);
                 w.push("\n");
             }
             11 => {
@@ -1656,28 +1657,35 @@ fn static_damage(r: &mut Rng, g: &mut Generated, profile: Profile) -> Option<&'s
         }
         Err(_) => Default::default(),
     };
-    // For string literals the record is also accepted when a string token *starts* at the record's
-    // start: the generator writes well-formed strings, so a lexer that ends the token earlier (at
+    // For string literals and block comments the record is also accepted when a token of that kind
+    // *starts* at the record's start: the generator writes well-formed strings, so a lexer that ends the token earlier (at
     // an escaped quote, say) is wrong about the lexeme, not the record.
-    let str_token_starts: std::collections::BTreeSet<usize> = match std::str::from_utf8(&bytes) {
-        Ok(t) => {
-            let mut v = std::collections::BTreeSet::new();
-            let mut pos = 0usize;
-            for tok in oq3_lexer::tokenize(t) {
-                if matches!(
-                    tok.kind,
-                    oq3_lexer::TokenKind::Literal { kind: oq3_lexer::LiteralKind::Str { .. }, .. }
-                ) {
-                    v.insert(pos);
+    let (str_token_starts, comment_token_starts): (std::collections::BTreeSet<usize>, std::collections::BTreeSet<usize>) =
+        match std::str::from_utf8(&bytes) {
+            Ok(t) => {
+                let mut v = std::collections::BTreeSet::new();
+                let mut c = std::collections::BTreeSet::new();
+                let mut pos = 0usize;
+                for tok in oq3_lexer::tokenize(t) {
+                    if matches!(
+                        tok.kind,
+                        oq3_lexer::TokenKind::Literal { kind: oq3_lexer::LiteralKind::Str { .. }, .. }
+                    ) {
+                        v.insert(pos);
+                    }
+                    if matches!(tok.kind, oq3_lexer::TokenKind::BlockComment { .. }) {
+                        c.insert(pos);
+                    }
+                    pos += tok.len as usize;
                 }
-                pos += tok.len as usize;
+                (v, c)
             }
-            v
-        }
-        Err(_) => Default::default(),
-    };
+            Err(_) => Default::default(),
+        };
     let confirmed = |l: &Lexeme| {
-        token_spans.contains(&(l.start, l.end)) || (l.class == "string" && str_token_starts.contains(&l.start))
+        token_spans.contains(&(l.start, l.end))
+            || (l.class == "string" && str_token_starts.contains(&l.start))
+            || (l.class == "block_comment" && comment_token_starts.contains(&l.start))
     };
     let g3_for = |p: usize| -> Option<(String, usize)> {
         for l in &lex {
